@@ -1,6 +1,6 @@
 (* Corr/C02.v -- correspondence interface for C02: a store (library-written or independently written),
    the graph its writer intended, and what the library makes of it (validation verdict, read result). *)
-From Geff Require Export Base Dtype Vlen Tree Validate Write Read SpecDecode.
+From Geff Require Export Base Dtype Vlen Tree Validate Write Read SpecDecode SpecRange.
 From Geff Require Export KeyStore KeyTie KeyNames.
 From Geff Require Meta.
 Open Scope list_scope.
@@ -24,18 +24,24 @@ Definition diag_keys (root : znode) (intended : option sgraph) (f : fmt) (raw : 
   [ tie f raw gv (Some root);
     match intended with Some ex => spec_keys_ok f raw gv ex | None => true end;
     wf_tree root ].
+(* C02_converse_total on the REAL reader: a store the library's structural validation accepts is read by the library iff its
+   offset rows point inside their data arrays (SpecRange.offsets_in_range_b, the decidable form of the theorem's premise) *)
+Definition read_iff_in_range (root : znode) (valid : bool) (libread : res mgraph) : bool :=
+  if valid then Bool.eqb (is_ok libread) (offsets_in_range_b root) else true.
 Definition diag (c : input * obs) : list bool :=
   match c with
   | (IStore root intended, OStore valid libread) =>
       [ Bool.eqb (is_ok (validate_structure KObj (Some root))) valid;
         res_eqb mgraph_eqb (read_to_memory KObj (Some root) true None None) libread;
         match libread with Ok g => osg_eqb (spec_decode root) (of_mgraph g) | Err _ => true end;
-        match intended with Some ex => osg_eqb (spec_decode root) ex | None => true end ]
+        match intended with Some ex => osg_eqb (spec_decode root) ex | None => true end;
+        read_iff_in_range root valid libread ]
   | (IStoreK root intended f raw gv, OStore valid libread) =>
       [ Bool.eqb (is_ok (validate_structure KObj (Some root))) valid;
         res_eqb mgraph_eqb (read_to_memory KObj (Some root) true None None) libread;
         match libread with Ok g => osg_eqb (spec_decode root) (of_mgraph g) | Err _ => true end;
-        match intended with Some ex => osg_eqb (spec_decode root) ex | None => true end ]
+        match intended with Some ex => osg_eqb (spec_decode root) ex | None => true end;
+        read_iff_in_range root valid libread ]
       ++ diag_keys root intended f raw gv
   | (IKeysNeg root intended f raw gv, OStore valid libread) =>
       [ Bool.eqb (is_ok (validate_structure KObj (Some root))) valid;
